@@ -223,6 +223,24 @@ def determinism(args):
                 log("%s %s %s: %d run digests x %d processes (workers 1,16,5,16): %s" % (pkg, sub or "ctl", profile, lines, len(outs), "identical" if same else "DIFFERENT"))
                 if not same:
                     problems += 1
+    # value census: the summary (values, bytes, seam calls, partial transfers, interrupts) is a
+    # function of the seed alone
+    for profile in ("sim-rel", "sim-dbg"):
+        binary, _ = cargo_build("iosim", profile)
+        for side in ("writer", "reader"):
+            outs = []
+            for w in (1, 16, 5):
+                env = dict(ENV)
+                env["VERIF_WORKERS"] = str(w)
+                rc, so, se = run([binary, "census", "--side", side, "--every32", "1024", "--wide-blocks", "4", "--seed", "424242", "--replay-dir", "/nonexistent", "--tag", "d"], env=env, timeout=3600)
+                if rc != 0:
+                    raise HarnessError("census run failed: " + se[-500:])
+                outs.append("\n".join(l for l in so.splitlines() if '"wall_s"' not in l))
+            same = all(o == outs[0] for o in outs)
+            report.append({"engine": "iosim", "mode": "census-" + side, "profile": profile, "processes": len(outs), "worker_counts": [1, 16, 5], "identical": same})
+            log("iosim census %s %s: summaries of %d processes (workers 1,16,5): %s" % (side, profile, len(outs), "identical" if same else "DIFFERENT"))
+            if not same:
+                problems += 1
     # Miri: same seed, same program => same output
     cfgs = vcheck.c17_matrix(424242, 16)
     a = [vcheck.miri_run(c) for c in cfgs]
